@@ -28,11 +28,13 @@ Definition cval_eqb (a b : cval) : bool :=
   end.
 
 (* what a caller can get back *)
-Inductive rres := RRow (id ix val : nat) | RNotFound | RCacheErr | ROk | RExecErr | RUnmodelled.
+Inductive rres := RRow (id ix val : nat) | RNotFound | RCacheErr | ROk | RExecErr | RUnmodelled
+  | RCtxErr.   (* the caller's context error (context.Canceled) *)
 Definition rres_eqb (a b : rres) : bool :=
   match a, b with
   | RRow a1 a2 a3, RRow b1 b2 b3 => Nat.eqb a1 b1 && Nat.eqb a2 b2 && Nat.eqb a3 b3
-  | RNotFound, RNotFound | RCacheErr, RCacheErr | ROk, ROk | RExecErr, RExecErr | RUnmodelled, RUnmodelled => true
+  | RNotFound, RNotFound | RCacheErr, RCacheErr | ROk, ROk | RExecErr, RExecErr | RUnmodelled, RUnmodelled
+  | RCtxErr, RCtxErr => true
   | _, _ => false
   end.
 
